@@ -330,15 +330,11 @@ def prim (F : FS σ) : BaseWalk.Prim (MState σ) where
   remove := fun s p => onDelegate F s p (.remove p)
   removedir := fun s p => onDelegate F s p (.removedir p)
 
-/-- `FS.removetree(dir_path)`: `abspath(normpath(dir_path))` comes BEFORE any `check()`; the first
-`scandir` of the walker then checks the closed flag (`MultiFS.scandir` → `self.check()`); the root itself
-is kept -/
+/-- `FS.removetree(dir_path)` (inherited): `self.validatepath(dir_path)` comes first (since /repo 433aea4) —
+`MultiFS.validatepath` starts with `self.check()` —, then the walk; the root itself is kept -/
 def removetreeM (F : FS σ) (fuel : Nat) (s : MState σ) (p : Str) : MState σ × Out :=
-  match normRes p with
-  | .err e => (s, .err e)
-  | .ok np =>
-    if s.closed then (s, .err .FilesystemClosed)
-    else BaseWalk.removetreeBody (prim F) fuel s p np
+  if s.closed then (s, .err .FilesystemClosed)
+  else BaseWalk.removetree (prim F) fuel s p
 
 /-- `copy_dir(fs, src_path, fs, dst_path)` -/
 def copyDirM (F : FS σ) (fuel : Nat) (s : MState σ) (a b : Str) : MState σ × Out :=
@@ -370,8 +366,7 @@ def closeM (F : FS σ) (s : MState σ) : MState σ × Out :=
   if s.autoClose && !s.closed then closeLoop F (List.range s.layers.length) s0
   else (s0, .ok .unit)
 
-/-- one call on an OPEN MultiFS (everything after the first `self.check()`), `removetree` and `close`
-aside -/
+/-- one call on an OPEN MultiFS (everything after the first `self.check()`), `close` aside -/
 def stepOpen (fuel : Nat) (F : FS σ) (s : MState σ) : Op → MState σ × Out
   | .close => closeM F s
   | .removetree p => removetreeM F fuel s p
@@ -404,7 +399,6 @@ def stepOpen (fuel : Nat) (F : FS σ) (s : MState σ) : Op → MState σ × Out
 def step (fuel : Nat) (F : FS σ) (s : MState σ) (op : Op) : MState σ × Out :=
   match op with
   | .close => closeM F s
-  | .removetree p => removetreeM F fuel s p
   | _ => if s.closed then (s, .err .FilesystemClosed) else stepOpen fuel F s op
 
 end Methods
